@@ -18,6 +18,7 @@ mod p06;
 mod p07;
 mod p11;
 mod p12;
+mod p13;
 mod p16;
 mod p18;
 mod p19;
@@ -48,6 +49,7 @@ macro_rules! dispatch {
             "C07" => $f::<p07::C07>($($arg),*),
             "C11" => $f::<p11::C11>($($arg),*),
             "C12" => $f::<p12::C12>($($arg),*),
+            "C13" => $f::<p13::C13>($($arg),*),
             "C16" => $f::<p16::C16>($($arg),*),
             "C18" => $f::<p18::C18>($($arg),*),
             "C19" => $f::<p19::C19>($($arg),*),
